@@ -34,7 +34,17 @@ def run(ctx):
     ctx.ob("C21.D5-insertion", cname(f, None, "(head, tail) = msg_proc(msg)"), ok, "" if ok else "the processor's result is unpacked differently", where=where(f, ins))
     def conj(t):
         return sorted(A.norm(v) for v in (t.values if isinstance(t, ast.BoolOp) and isinstance(t.op, ast.And) else [t]))
-    ok = any(isinstance(s, ast.If) and conj(s.test) == ["new_gen is None", "tail_gen is not None"] and [A.norm(x) for x in s.body] == ["new_gen = single_gen(msg)"] for s in ins.body)
+    def chain(s_):
+        """(sorted conjuncts, innermost body) of `if a and b:` / `if a: if b:` (no else parts)"""
+        tests, cur = [], s_
+        while True:
+            tests += conj(cur.test)
+            inner_ = A.body(cur.body)
+            if len(inner_) == 1 and isinstance(inner_[0], ast.If) and not inner_[0].orelse and not cur.orelse:
+                cur = inner_[0]
+                continue
+            return sorted(tests), inner_
+    ok = any(isinstance(s, ast.If) and not s.orelse and chain(s)[0] == ["new_gen is None", "tail_gen is not None"] and [A.norm(x) for x in chain(s)[1]] == ["new_gen = single_gen(msg)"] for s in ins.body) or any(isinstance(s, ast.If) and conj(s.test) == ["new_gen is None", "tail_gen is not None"] and [A.norm(x) for x in s.body] == ["new_gen = single_gen(msg)"] for s in ins.body)
     ctx.ob("C21.D5-insertion", cname(f, None, "(None, tail): the original message becomes the head"), ok, "" if ok else "a tail without a head loses the original message", where=where(f, ins))
     br = [s for s in ins.body if isinstance(s, ast.If) and A.norm(s.test) == "new_gen is not None"]
     ok = bool(br) and [A.norm(x) for x in br[0].body if not isinstance(x, ast.Expr) or not isinstance(x.value, ast.Constant)] == [
@@ -60,9 +70,20 @@ def run(ctx):
             ctx.ob("C21.D5-head-result-restored", cname(f, h, "ret = tail_result_cache.pop(id(exhausted_gen))"), ok, "" if ok else "restore changed", where=where(f, h))
         if i_tail is not None:
             inner = stm[i_tail].body
-            ok = len(inner) == 2 and A.norm(inner[0]) == "gen = tail_cache.pop(id(exhausted_gen))" and isinstance(inner[1], ast.If) and A.norm(inner[1].test) == "gen is not None" \
-                and [A.norm(x) for x in inner[1].body if not (isinstance(x, ast.Expr) and isinstance(x.value, ast.Constant))] == [
-                    "plan_stack.append(gen)", "saved_result = result_stack.pop()", "tail_result_cache[id(gen)] = saved_result", "result_stack.append(None)"]
+            ok = len(inner) == 2 and A.norm(inner[0]) == "gen = tail_cache.pop(id(exhausted_gen))" and isinstance(inner[1], ast.If) and A.norm(inner[1].test) == "gen is not None"
+            if ok:
+                # the tail is pushed; the head's result is popped and kept under the tail's identity; the tail is primed with None after
+                # that pop - in any order that respects those dependencies
+                blk = A.body(inner[1].body)
+                txt_ = [A.norm(x) for x in blk]
+                i_pop = next((i for i, x in enumerate(blk) if "result_stack.pop()" in A.norm(x)), None)
+                i_none = next((i for i, t_ in enumerate(txt_) if t_ == "result_stack.append(None)"), None)
+                stores = [x for x in blk if isinstance(x, ast.Assign) and A.norm(x.targets[0]) == "tail_result_cache[id(gen)]"]
+                kept = len(stores) == 1 and A.norm(q.straight_line_value(blk[:blk.index(stores[0])], stores[0].value)) == "result_stack.pop()"
+                others = [t_ for x, t_ in zip(blk, txt_) if t_ not in ("plan_stack.append(gen)", "result_stack.append(None)") and x not in stores
+                          and not (isinstance(x, ast.Assign) and isinstance(x.targets[0], ast.Name) and A.norm(x.value) == "result_stack.pop()")]
+                ok = "plan_stack.append(gen)" in txt_ and kept and None not in (i_pop, i_none) and i_pop < i_none and not others \
+                    and sum("result_stack.pop()" in t_ for t_ in txt_) == 1
             ctx.ob("C21.D5-head-result-restored", cname(f, h, "tail pushed, head's result saved under the tail's identity, tail primed with None"), ok,
                    "" if ok else "tail start sequence changed", nontrivial=True, where=where(f, h))
         ok = A.norm(stm[0]) == "exhausted_gen = plan_stack.pop()"
